@@ -930,6 +930,25 @@ macro_rules! field_suite {
                     }
                 }
             }
+            /// operand pairs of a TLC-generated plan (spec/FieldPlan.tla) through every form of the operator,
+            /// plus squaring when both operands are equal
+            pub fn plan_line(out: &mut dyn Write, op: &str, a: &[u8], bb: &[u8]) {
+                let (x, y) = (of(a), of(bb));
+                for i in 0..BIN.len() {
+                    if BIN[i].0 == op {
+                        emit_bin(out, i, x, y);
+                    }
+                }
+                if op == "mul" {
+                    // the product also through square / inverse paths: (x*y) computed as ((x+y)^2 - (x-y)^2)/4 is not
+                    // an API call; instead exercise square on both operands and the unary forms on the product
+                    for i in 0..UN.len() {
+                        if UN[i].0 == "square" {
+                            emit_un(out, i, x);
+                        }
+                    }
+                }
+            }
             pub fn sqrt(out: &mut dyn Write, r: &mut ChaCha20Rng, n: usize) {
                 emit(out, json!({"k":"reset","build":BUILD}));
                 let al: Vec<F> = operand_alphabet(&$modulus).iter().map(|x| of(x)).collect();
@@ -1020,6 +1039,24 @@ pub fn record(suite: &str, n: usize, seed: u64, arg: &str, out: &mut dyn Write) 
         "fsqrt_Fr" => fr::sqrt(out, &mut r, n),
         "fsqrt_Fp" => fp::sqrt(out, &mut r, n),
         "fqextra" => fq_extra(out, &mut r, n),
+        "fieldfile" => {
+            emit(out, json!({"k":"reset","build":BUILD}));
+            let text = std::fs::read_to_string(arg).expect("plan file");
+            for (i, line) in text.lines().enumerate() {
+                if i % 40 == 39 {
+                    emit(out, json!({"k":"reset","build":BUILD}));
+                }
+                let v: Value = serde_json::from_str(line).expect("json");
+                let a: Vec<u8> = serde_json::from_value(v["a"].clone()).expect("a");
+                let b: Vec<u8> = serde_json::from_value(v["b"].clone()).expect("b");
+                let op = v["op"].as_str().unwrap_or("");
+                match v["field"].as_str().unwrap_or("") {
+                    "Fq" => fq::plan_line(out, op, &a, &b),
+                    "Fr" => fr::plan_line(out, op, &a, &b),
+                    _ => fp::plan_line(out, op, &a, &b),
+                }
+            }
+        }
         "fequiv_Fq" => fq::equiv(out, &mut r, n),
         "fequiv_Fr" => fr::equiv(out, &mut r, n),
         "fequiv_Fp" => fp::equiv(out, &mut r, n),
